@@ -15,20 +15,20 @@ Open Scope Z_scope.
 
 
 (* the constant-time code equals the plain specification, for every key size and ciphertext *)
-Theorem decrypt_eq_spec : forall hash hmac raw n d enc,
-  hmac_ok hmac -> (forall m, 0 <= raw m) -> key_size_ok n -> 0 <= d ->
-  decrypt hash hmac raw true n d "rsa"%string enc = Ok (spec_decrypt hash hmac raw n d enc).
+Theorem decrypt_eq_spec : forall hash hmac raw n d cache enc,
+  hmac_ok hmac -> (forall m, 0 <= raw m) -> key_size_ok n -> 0 <= d -> cache_ok hash n d cache ->
+  decrypt hash hmac raw true n d "rsa"%string cache enc = Ok (spec_decrypt hash hmac raw n d enc).
 Proof. exact decrypt_eq_spec_w. Qed.
 
 (* total: a byte string (at most k-11 bytes) for every ciphertext of the right length below n;
    None exactly for the publicly invalid ones; never an exception *)
-Theorem decrypt_total : forall hash hmac raw n d enc,
-  hmac_ok hmac -> (forall m, 0 <= raw m) -> key_size_ok n -> 0 <= d ->
+Theorem decrypt_total : forall hash hmac raw n d cache enc,
+  hmac_ok hmac -> (forall m, 0 <= raw m) -> key_size_ok n -> 0 <= d -> cache_ok hash n d cache ->
   (zlen enc = numBytes n /\ bytesToNumber enc < n ->
-     exists m, decrypt hash hmac raw true n d "rsa"%string enc = Ok (Some m) /\ all_bytes m = true
+     exists m, decrypt hash hmac raw true n d "rsa"%string cache enc = Ok (Some m) /\ all_bytes m = true
                /\ zlen m <= numBytes n - 11) /\
   (~ (zlen enc = numBytes n /\ bytesToNumber enc < n) ->
-     decrypt hash hmac raw true n d "rsa"%string enc = Ok None).
+     decrypt hash hmac raw true n d "rsa"%string cache enc = Ok None).
 Proof. exact decrypt_total_w. Qed.
 
 (* the specification's validity test is exactly the format 00 02 PS 00 M, |PS| >= 8, PS non-zero *)
@@ -38,34 +38,34 @@ Proof. exact unpad_iff_format. Qed.
 (* the same in the words of the property: for every ciphertext of the right length below n,
    a block of the format 00 02 PS 00 M (|PS| >= 8, PS non-zero) yields M, any other block
    yields the tail of the pseudo-random message selected by synth_len *)
-Theorem decrypt_by_format : forall hash hmac raw n d enc,
-  hmac_ok hmac -> (forall m, 0 <= raw m) -> key_size_ok n -> 0 <= d ->
+Theorem decrypt_by_format : forall hash hmac raw n d cache enc,
+  hmac_ok hmac -> (forall m, 0 <= raw m) -> key_size_ok n -> 0 <= d -> cache_ok hash n d cache ->
   zlen enc = numBytes n -> bytesToNumber enc < n ->
   let k := numBytes n in
   let em := be_bytes (Z.to_nat k) (raw (bytesToNumber enc)) in
   let kdk := hmac (hash (be_bytes (Z.to_nat k) d)) enc in
-  (forall M, pkcs1_format em M -> decrypt hash hmac raw true n d "rsa"%string enc = Ok (Some M)) /\
+  (forall M, pkcs1_format em M -> decrypt hash hmac raw true n d "rsa"%string cache enc = Ok (Some M)) /\
   ((forall M, ~ pkcs1_format em M) ->
-     decrypt hash hmac raw true n d "rsa"%string enc =
+     decrypt hash hmac raw true n d "rsa"%string cache enc =
      Ok (Some (skipn (Z.to_nat (k - synth_len k (prf_spec hmac kdk label_length 2048)))
                      (prf_spec hmac kdk label_message (k * 8))))).
 Proof. exact decrypt_by_format_w. Qed.
 
 (* 2-safety: for the same ciphertext (hence the same PRF stream) any two invalid decrypted
    blocks give the same result: it depends on the decrypted bytes only through validity *)
-Theorem synthetic_independent_of_defect : forall hash hmac raw1 raw2 n d enc,
-  hmac_ok hmac -> (forall m, 0 <= raw1 m) -> (forall m, 0 <= raw2 m) -> key_size_ok n -> 0 <= d ->
+Theorem synthetic_independent_of_defect : forall hash hmac raw1 raw2 n d cache enc,
+  hmac_ok hmac -> (forall m, 0 <= raw1 m) -> (forall m, 0 <= raw2 m) -> key_size_ok n -> 0 <= d -> cache_ok hash n d cache ->
   pkcs1_unpad (be_bytes (Z.to_nat (numBytes n)) (raw1 (bytesToNumber enc))) = None ->
   pkcs1_unpad (be_bytes (Z.to_nat (numBytes n)) (raw2 (bytesToNumber enc))) = None ->
-  decrypt hash hmac raw1 true n d "rsa"%string enc = decrypt hash hmac raw2 true n d "rsa"%string enc.
+  decrypt hash hmac raw1 true n d "rsa"%string cache enc = decrypt hash hmac raw2 true n d "rsa"%string cache enc.
 Proof. exact synthetic_independent_of_defect_w. Qed.
 
 (* ... and its length is a function of key size and the ciphertext-derived "length" stream only *)
-Theorem invalid_length_independent_of_defect : forall hash hmac raw n d enc,
-  hmac_ok hmac -> (forall m, 0 <= raw m) -> key_size_ok n -> 0 <= d ->
+Theorem invalid_length_independent_of_defect : forall hash hmac raw n d cache enc,
+  hmac_ok hmac -> (forall m, 0 <= raw m) -> key_size_ok n -> 0 <= d -> cache_ok hash n d cache ->
   zlen enc = numBytes n -> bytesToNumber enc < n ->
   pkcs1_unpad (be_bytes (Z.to_nat (numBytes n)) (raw (bytesToNumber enc))) = None ->
-  exists m, decrypt hash hmac raw true n d "rsa"%string enc = Ok (Some m) /\
+  exists m, decrypt hash hmac raw true n d "rsa"%string cache enc = Ok (Some m) /\
             zlen m = synth_len (numBytes n)
                        (prf_spec hmac (hmac (hash (be_bytes (Z.to_nat (numBytes n)) d)) enc) label_length 2048).
 Proof. exact invalid_length_independent_of_defect_w. Qed.
@@ -146,13 +146,13 @@ Proof. exact run_ops_spec. Qed.
 Theorem decrypt_independent_of_blinding : forall helper grn invMod powMod n e,
   1 < n -> (forall x y, helper ((x * y) mod n) mod n = (helper x * helper y) mod n) ->
   blind_ok helper n (powMod (invMod (grn 2 n) n) e n) (grn 2 n) ->
-  forall hash hmac st1 st2 d enc,
+  forall hash hmac st1 st2 d cache enc,
   (forall k m, zlen (hmac k m) = 32) -> (forall k m, all_bytes (hmac k m) = true) ->
-  11 <= numBytes n <= 65535 -> 0 <= d ->
+  11 <= numBytes n <= 65535 -> 0 <= d -> cache_ok hash n d cache ->
   state_ok helper n st1 -> state_ok helper n st2 ->
-  decrypt hash hmac (raw_of helper grn invMod powMod n e st1) true n d "rsa"%string enc =
-  decrypt hash hmac (raw_of helper grn invMod powMod n e st2) true n d "rsa"%string enc /\
-  decrypt hash hmac (raw_of helper grn invMod powMod n e st1) true n d "rsa"%string enc =
+  decrypt hash hmac (raw_of helper grn invMod powMod n e st1) true n d "rsa"%string cache enc =
+  decrypt hash hmac (raw_of helper grn invMod powMod n e st2) true n d "rsa"%string cache enc /\
+  decrypt hash hmac (raw_of helper grn invMod powMod n e st1) true n d "rsa"%string cache enc =
   Ok (spec_decrypt hash hmac (fun m => helper m mod n) n d enc).
 Proof. exact decrypt_independent_of_blinding_all. Qed.
 
@@ -169,8 +169,9 @@ Proof.
 Qed.
 
 (* ---- the hypotheses are satisfiable, and the statements are not vacuous ------------- *)
+Definition toy_mix (l : list Z) : Z := fold_left (fun a x => (a * 31 + x) mod 65521) l 7.
 Definition toy_hmac (k m : list Z) : list Z :=
-  map (fun i => (fold_left Z.add k 0 + 3 * fold_left Z.add m 0 + 7 * Z.of_nat i) mod 256) (seq 0 32).
+  map (fun i => (toy_mix k + 3 * toy_mix m + 7 * Z.of_nat i * (1 + toy_mix k mod 5)) mod 256) (seq 0 32).
 Definition toy_hash (m : list Z) : list Z := toy_hmac [] m.
 Definition toy_n : Z := 2 ^ 95 + 7.          (* 12-byte modulus *)
 Definition toy_raw (c : Z) : Z := c.         (* the identity as "private operation" *)
@@ -186,15 +187,29 @@ Example toy_key_ok : key_size_ok toy_n.
 Proof. vm_compute. split; discriminate. Qed.
 (* a valid padding returns the message ... *)
 Example toy_valid :
-  decrypt toy_hash toy_hmac toy_raw true toy_n 5 "rsa"%string [0;2;1;1;1;1;1;1;1;1;0;77] = Ok (Some [77]).
+  decrypt toy_hash toy_hmac toy_raw true toy_n 5 "rsa"%string None [0;2;1;1;1;1;1;1;1;1;0;77] = Ok (Some [77]).
 Proof. vm_compute. reflexivity. Qed.
 (* ... two different defects of the same ciphertext position give a synthetic message, no error *)
 Example toy_invalid :
-  exists m, decrypt toy_hash toy_hmac toy_raw true toy_n 5 "rsa"%string [0;2;1;1;1;0;1;1;1;1;0;77] = Ok (Some m)
+  exists m, decrypt toy_hash toy_hmac toy_raw true toy_n 5 "rsa"%string None [0;2;1;1;1;0;1;1;1;1;0;77] = Ok (Some m)
             /\ pkcs1_unpad [0;2;1;1;1;0;1;1;1;1;0;77] = None.
 Proof. eexists. vm_compute. split; reflexivity. Qed.
+(* the cache invariant is needed: with a cached key hash that is NOT the hash of d (here the hash of the
+   empty string, what a key object gets when the hash is taken before d is assigned) the same ciphertext
+   yields a different synthetic message, one computable from public data *)
+Example toy_incoherent_cache_differs :
+  let n2 := 2 ^ 255 + 1 in let enc := 0 :: 2 :: repeat 1 30 in
+  decrypt toy_hash toy_hmac toy_raw true n2 5 "rsa"%string (Some (toy_hash [])) enc
+  <> decrypt toy_hash toy_hmac toy_raw true n2 5 "rsa"%string None enc
+  /\ cache_ok toy_hash n2 5 None /\ cache_ok toy_hash n2 5 (Some [])
+  /\ cache_ok toy_hash n2 5 (Some (toy_hash (be_bytes 32 5))) /\ ~ cache_ok toy_hash n2 5 (Some (toy_hash [])).
+Proof.
+  cbv zeta. split; [vm_compute; intros H; discriminate H|]. split; [left; reflexivity|].
+  split; [right; left; reflexivity|]. split; [right; right; reflexivity|].
+  intros [H|[H|H]]; vm_compute in H; discriminate.
+Qed.
 Example toy_public_invalid :
-  decrypt toy_hash toy_hmac toy_raw true toy_n 5 "rsa"%string [0;2;1] = Ok None.
+  decrypt toy_hash toy_hmac toy_raw true toy_n 5 "rsa"%string None [0;2;1] = Ok None.
 Proof. vm_compute. reflexivity. Qed.
 Example toy_malformed_premaster :
   wellformed_premaster (3,3) (3,3) (Some (3 :: 2 :: repeat 0 46)) = false /\
